@@ -246,7 +246,7 @@ var portNext = uint32(os.Getpid()*131) + uint32(time.Now().UnixNano()/1000)
 func freshPort() int {
 	for i := 0; i < 40000; i++ {
 		p := 12000 + int(atomic.AddUint32(&portNext, 1))%19000
-		if p == 18080 || p == 18443 || p == 2015 {
+		if hx.IsQuietPort(p) || p == 2015 {
 			continue
 		}
 		ln, err := net.Listen("tcp", ":"+strconv.Itoa(p))
